@@ -22,7 +22,7 @@ EXTRACT = "coq/C03/Extract_C03.v"
 DRIVER = "props/C03/driver.ml"
 PROGS = {"c03sim": ["props/C03/unit.cpp"]}
 
-MODELLED = ("restraint", "histogram", "extlag", "abmd", "abf", "meta")
+MODELLED = ("restraint", "histogram", "extlag", "abmd", "abf", "meta", "eabf")
 
 # (family, cases quick, cases thorough, history length quick, thorough)
 PLAN = [
